@@ -1,6 +1,7 @@
 import VsbModel.Lemmas.Proto
 import VsbModel.Model.Upload
 import VsbModel.Props.C17
+import VsbModel.Model.Encryptor
 set_option linter.unusedSimpArgs false
 set_option linter.unusedVariables false
 set_option linter.unusedSectionVars false
@@ -425,3 +426,39 @@ example : (yandex cfgEx (fun k => if k = 1 then .corrupt else .ok) { ns := [("ol
 example : (dropbox cfgEx (fun k => if k = 4 then .lost else .ok) { ns := [] } [[1,2],[3]] (.final 3 6)).ok = false ∧
     (dropbox cfgEx (fun k => if k = 4 then .lost else .ok) { ns := [] } [[1,2],[3]] (.final 3 6)).run.renamed = some [1,2,3] := by decide
 end Vsb.Proto
+
+
+/-! ## Which terminal message the encryptor sends (`error_replaces_eof`) -/
+namespace Vsb.Encryptor
+open Vsb.Split
+
+/-- The reader returns a checksum only if reading succeeded, gpg wrote nothing to stderr and exited with
+status 0 (a gpg killed by a signal, or exiting non-zero, is an error). -/
+theorem reader_ok_iff (readOk stderrEmpty : Bool) (exit : Exit) (c : Nat) (r : Nat) :
+    readerResult readOk stderrEmpty exit c = some r ↔ (readOk = true ∧ stderrEmpty = true ∧ exit = .code 0 ∧ r = c) := by
+  unfold readerResult
+  cases readOk <;> cases stderrEmpty <;> cases exit with
+  | code n => cases n <;> simp [Exit.success]; try exact eq_comm
+  | signal n => simp [Exit.success]
+
+/-- **error_replaces_eof.**  The first `close` of a fresh encryptor sends exactly one terminal message; it is
+the checksum message iff the caller reported success, the flush of gpg's stdin succeeded and the reader
+returned a checksum — in every other case it is an error message. -/
+theorem close_sends_eof_iff (callerOk flushOk : Bool) (reader : Option Nat) (c : Nat) :
+    (close {} callerOk flushOk reader).2.1 = some (.eof c) ↔ (callerOk = true ∧ flushOk = true ∧ reader = some c) := by
+  unfold close
+  cases callerOk <;> cases flushOk <;> cases reader <;> simp
+
+theorem close_always_sends (callerOk flushOk : Bool) (reader : Option Nat) :
+    ∃ m, (close {} callerOk flushOk reader).2.1 = some m ∧ (m = .err "error" ∨ m = .err "reader error" ∨ ∃ c, m = .eof c) := by
+  unfold close
+  cases callerOk <;> cases flushOk <;> cases reader <;> simp
+
+/-- A second `close` (e.g. `Drop` after `finish`) sends nothing and returns the stored result. -/
+theorem close_once (callerOk flushOk : Bool) (reader : Option Nat) (callerOk' flushOk' : Bool) (reader' : Option Nat) :
+    (close (close {} callerOk flushOk reader).1 callerOk' flushOk' reader').2.1 = none ∧
+    (close (close {} callerOk flushOk reader).1 callerOk' flushOk' reader').2.2 = (close {} callerOk flushOk reader).2.2 := by
+  unfold close
+  cases callerOk <;> cases flushOk <;> cases reader <;> simp
+
+end Vsb.Encryptor
